@@ -22,6 +22,7 @@ structure Fn where
   pow : Rat → Rat → Rat          -- non-integer exponents
   pi : Rat
   gamma : Rat → Rat               -- libphysica::Gamma
+  gammaLn : Rat → Rat             -- libphysica::GammaLn
   gammaQ : Rat → Rat → Rat        -- libphysica::GammaQ(x,a) on its domain
   gammaP : Rat → Rat → Rat
   invGammaQ : Rat → Rat → Rat
@@ -96,12 +97,24 @@ def dofEps : Rat := (0x10c6f7a0b5ed8d : Rat) / (2 : Rat) ^ (72 : Nat)
 
 def pdfChiSq (T : Fn) (x dof : Rat) : Rat :=
   if x ≤ 0 ∨ dof < dofEps then 0
+  else T.exp ((dof / 2 - 1) * T.log x - x / 2 - dof / 2 * T.log 2 - T.gammaLn (dof / 2))
+
+/-- the product form of the density used before `fix:` 15e17b7 (overflowed for dof ≳ 250) -/
+def pdfChiSqProduct (T : Fn) (x dof : Rat) : Rat :=
+  if x ≤ 0 ∨ dof < dofEps then 0
   else 1 / T.pow 2 (dof / 2) / T.gamma (dof / 2) * T.pow x (dof / 2 - 1) * T.exp (-x / 2)
 
 /-- `Lower_Incomplete_Gamma(x,s) = Gamma(s) * GammaP(x,s)` -/
 def lowerGamma (T : Fn) (x s : Rat) : Rat := T.gamma s * T.gammaP x s
 
+/-- after `fix:` 15e17b7: `GammaP(x/2, dof/2)` directly -/
 def cdfChiSq (T : Fn) (x dof : Rat) : Rat :=
+  if x < 0 then 0
+  else if rabs dof < dofEps then 1
+  else T.gammaP (x / 2) (dof / 2)
+
+/-- the pre-fix form `1/Gamma(dof/2) * Lower_Incomplete_Gamma(x/2, dof/2)` -/
+def cdfChiSqProduct (T : Fn) (x dof : Rat) : Rat :=
   if x < 0 then 0
   else if rabs dof < dofEps then 1
   else 1 / T.gamma (dof / 2) * lowerGamma T (x / 2) (dof / 2)
